@@ -650,6 +650,7 @@ func runC06(c *an.Ctx) {
 
 // c06BufferLifetime is the use-after-Put / hand-over rule for pooled receive buffers.
 func c06BufferLifetime(c *an.Ctx, rule string) {
+	c06ReturnedAlias(c, rule)
 	c06Retained(c, rule)
 	c06SinglePut(c, rule)
 	// R2: no use of a pooled []byte pointer after Put; a buffer captured by a
@@ -1169,5 +1170,77 @@ func c06SinglePut(c *an.Ctx, rule string) {
 	}
 	if n == 0 {
 		c.Und(rule, "single Put", token.NoPos, "no pooled receive buffer with a Put in the same function was found")
+	}
+}
+
+// c06ReturnedAlias is the rule that a function which returns its pooled receive
+// buffer to the pool does not hand a slice of that buffer to its caller: the
+// caller would decode bytes that the next user of the buffer is overwriting.
+func c06ReturnedAlias(c *an.Ctx, rule string) {
+	for _, fn := range c.AllFns {
+		if fn.Blocks == nil || c.IsTestFile(fn.Pos()) || fn.Parent() != nil {
+			continue
+		}
+		pkg := an.FnPkg(fn)
+		if pkg == nil {
+			continue
+		}
+		pp := an.Short(pkg.Path())
+		if !(strings.HasPrefix(pp, "dnsserver") || strings.HasPrefix(pp, "bindtodevice")) {
+			continue
+		}
+		for _, gi := range an.Calls(fn) {
+			gc, ok := gi.(*ssa.Call)
+			if !ok || !isPoolGet(gi) || !isByteSlicePtr(gc.Type()) {
+				continue
+			}
+			// is the pointer put back by this function (directly or deferred)?
+			put := false
+			for _, pc := range an.Calls(fn) {
+				if isPoolPut(pc) {
+					args := pc.Common().Args
+					if args[len(args)-1] == ssa.Value(gc) {
+						put = true
+					}
+				}
+			}
+			if !put || gc.Referrers() == nil {
+				continue
+			}
+			var bufs []ssa.Value
+			for _, r := range *gc.Referrers() {
+				if ld, ok := r.(*ssa.UnOp); ok && ld.Op == token.MUL {
+					bufs = append(bufs, ld)
+				}
+			}
+			key := an.FnKey(fn) + " returns no slice of the buffer it puts back"
+			bad := false
+			for _, ret := range an.Returns(fn) {
+				for _, res := range ret.Results {
+					// a named result spilled because of a defer: look at what is stored into it
+					cands := []ssa.Value{res}
+					if ld, ok := res.(*ssa.UnOp); ok && ld.Op == token.MUL {
+						if al, ok := ld.X.(*ssa.Alloc); ok {
+							for _, st := range an.Stores(al) {
+								cands = append(cands, st.Val)
+							}
+						}
+					}
+					for _, cand := range cands {
+						for _, b := range bufs {
+							if sliceDerivedFrom(cand, b, 0) {
+								bad = true
+							}
+						}
+					}
+				}
+			}
+			c.Analysed(an.FnKey(fn))
+			if bad {
+				c.Bad(rule, key, gc.Pos(), "the function returns a slice of a pooled buffer that it also returns to the pool: the caller decodes the message while the next request is read into the same memory")
+			} else {
+				c.Ok(rule, key, gc.Pos(), "no result aliases the pooled buffer")
+			}
+		}
 	}
 }
